@@ -26,6 +26,8 @@ class Division(Contract):
     with optimal sizing; x // y == floor(x / y) exactly; x % y == x - y*floor(x / y) exactly (sign of the
     divisor); raw and repr methods obey the same clauses."""
     name = 'functions:truediv/floordiv/mod'
+    primary = ['C09']
+    secondary_stride = 8
     layer = 5
     uses = LOWER
     props = {'*': ['C09'], 'in_range': ['C09', 'C02'], 'format_valid': ['C09', 'C02'], 'operands_unchanged': ['C20']}
